@@ -46,7 +46,8 @@ TYield ==
   /\ IsAction("yield")
   /\ (YieldRoot \/ YieldNext)
   /\ ~done'
-  /\ cur' = [pos |-> A.pos, isdir |-> A.isdir, err |-> A.err]
+  (* an error item may name no path (A.pos = <<>>): TLC infers the position *)
+  /\ cur'.isdir = A.isdir /\ cur'.err = A.err /\ (A.pos = <<>> \/ cur'.pos = A.pos)
   /\ Consume
 
 (* walkdir skipped an entry outside the depth bounds: no event *)
